@@ -3,7 +3,7 @@ LEVEL = "proof"
 LEAN_MODULES = ["CifModel.Props.C03"]
 REQUIRED = ["CifModel.C03_clamp", "CifModel.C03_report_site"]
 GEN = ["ErrCodes", "CharClass", "ParseConsts"]
-FAMILIES = ["parse"]
+FAMILIES = ["parse", "parsebytes"]
 TRUSTED_BASE = [
     "Lean 4.33.0 kernel; axioms propext, Classical.choice, Quot.sound only",
     "lean/CifModel/Model/Parser.lean (integrated parser: cif_parse_internal after the version decision, parse_cif … parse_value, every "
